@@ -180,7 +180,7 @@ func runPair(s *subject, a, b string, iters int, callTimeout, pairTimeout time.D
 	go func() { wg.Wait(); close(done) }()
 	select {
 	case <-done:
-	case <-time.After(pairTimeout + 5*time.Second):
+	case <-time.After(pairTimeout + 120*time.Second): // only to detect a hang; generous because the box may be heavily loaded
 		fmt.Fprintf(os.Stderr, "DRIVER-HANG %s %s %s\n", s.name, a, b)
 		os.Exit(4)
 	}
